@@ -41,7 +41,7 @@ func c05Step(x *engine.Exec) []engine.Failure {
 					switch {
 					case r.Panicked && strings.Contains(r.Err.Error(), "division by zero") && D != nil && D.Sign() > 0 && (sv == nil || sv.Sign() == 0 || vs.Tokens[den] == nil || vs.Tokens[den].Sign() == 0):
 						cause = "delegate-to-validator-with-delegator-shares-but-no-tokens"
-					case strings.Contains(r.Err.Error(), "insufficient funds") && strings.Contains(r.Err.Error(), "spendable"):
+					case strings.Contains(r.Err.Error(), "insufficient funds") && strings.Contains(r.Err.Error(), "spendable") && valueChangeAfterReward(x):
 						cause = "reward-pool-short"
 					}
 					_ = a
@@ -60,7 +60,12 @@ func c05Step(x *engine.Exec) []engine.Failure {
 			D, vt := vs.DelShares[p.Denom], vs.Tokens[p.Denom]
 			switch {
 			case strings.Contains(e, "insufficient funds"):
-				return "reward-pool-short"
+				// the known C12 mechanism needs a value-changing event (slash, take-rate block) after rewards accrued;
+				// a shortfall without one is not explained by it
+				if valueChangeAfterReward(x) {
+					return "reward-pool-short"
+				}
+				return ""
 			case (strings.Contains(e, "insufficient delegation shares") || strings.Contains(e, "insufficient tokens")) && D != nil && D.Sign() > 0 && D.Cmp(ratI(1)) < 0:
 				return "full-exit-below-one-delegator-share"
 			case (strings.Contains(e, "insufficient delegation shares") || strings.Contains(e, "insufficient tokens")) && D != nil && vt != nil && vt.Sign() > 0 &&
@@ -152,4 +157,22 @@ func needsMoreWholeShares(p world.Pos, D, vt *big.Rat) bool {
 	slack := ratMul(world.RatInt(p.Reported), big.NewRat(1, 1000000000000000000))
 	fl := new(big.Rat).SetInt(world.Floor(ratAdd(needed, slack)))
 	return fl.Cmp(p.Shares) > 0
+}
+
+// valueChangeAfterReward: did a slash or a block (take-rate deduction, rebalancing settlement) follow a reward
+// allocation in this history? Seeds of the staked scenario end with a reward allocation, so there any later slash or
+// block counts (conservative).
+func valueChangeAfterReward(x *engine.Exec) bool {
+	rewarded := len(x.Next.Snap().Pool) > 0 || len(x.Prev.Snap().Pool) > 0
+	seen := false
+	for _, op := range x.Next.Trace {
+		if op.K == world.KReward {
+			seen = true
+			continue
+		}
+		if (seen || rewarded) && (op.K == world.KSlash || op.K == world.KBlock) {
+			return true
+		}
+	}
+	return false
 }
